@@ -12,7 +12,7 @@ from . import algos_select as sel
 from . import algos_rebalance as rb
 from . import core_getters as gt
 
-UPD = [("date", "date"), ("data", "none"), ("inow", "optint")]
+UPD = [("date", "date"), ("data", "optdata"), ("inow", "optint")]
 
 # which properties each post-state field of a functional contract carries
 P_ADJUST = {"_capital": ("C02", "C07"), "_last_fee": ("C07",), "_net_flows": ("C03", "C07"), "stale": ("C08",), "*": ("C07",)}
